@@ -27,7 +27,7 @@ import (
 
 const Host = "src.example"
 
-var Graphs = []string{"G1", "G3", "G4", "G10", "G13", "G15"}
+var Graphs = []string{"G1", "G3", "G4", "G10", "G11", "G13", "G15"}
 
 var gcache = map[string]*graphs.Graph{}
 
